@@ -308,3 +308,100 @@ Proof.
   destruct err; [discriminate|]. intros H. inversion H; subst.
   eapply parse_segments_nonempty; [|exact E]. intros k vs Hk. discriminate.
 Qed.
+
+(* ---- Values.Encode does not depend on the order in which the map was filled ----
+   (a Go map has no order; the model keeps insertion order; Encode sorts the keys) *)
+From Coq Require Import Sorting.Sorted.
+
+Local Open Scope N_scope.
+
+Lemma bytes_leb_refl a : bytes_leb a a = true.
+Proof.
+  induction a as [|x a IH]; cbn [bytes_leb]; [reflexivity|]. rewrite N.ltb_irrefl. exact IH.
+Qed.
+
+Lemma bytes_leb_total a : forall b, bytes_leb a b = true \/ bytes_leb b a = true.
+Proof.
+  induction a as [|x a IH]; intros [|y b]; cbn [bytes_leb]; auto.
+  destruct (b2n x <? b2n y) eqn:E1; [auto|]. destruct (b2n y <? b2n x) eqn:E2; [auto|]. apply IH.
+Qed.
+
+Lemma bytes_leb_antisym a : forall b, bytes_leb a b = true -> bytes_leb b a = true -> a = b.
+Proof.
+  induction a as [|x a IH]; intros [|y b]; cbn [bytes_leb]; intros H1 H2; try discriminate; [reflexivity|].
+  destruct (b2n x <? b2n y) eqn:E1.
+  - apply N.ltb_lt in E1. destruct (b2n y <? b2n x) eqn:E2; [apply N.ltb_lt in E2; lia | discriminate].
+  - destruct (b2n y <? b2n x) eqn:E2; [discriminate|].
+    apply N.ltb_ge in E1. apply N.ltb_ge in E2.
+    assert (x = y) by (apply b2n_inj; lia). subst. f_equal. apply IH; assumption.
+Qed.
+
+Lemma bytes_leb_trans a : forall b c, bytes_leb a b = true -> bytes_leb b c = true -> bytes_leb a c = true.
+Proof.
+  induction a as [|x a IH]; intros [|y b] [|z c]; cbn [bytes_leb]; intros H1 H2; try discriminate; try reflexivity.
+  destruct (b2n x <? b2n y) eqn:E1; destruct (b2n y <? b2n z) eqn:E2;
+    destruct (b2n y <? b2n x) eqn:E3; destruct (b2n z <? b2n y) eqn:E4; try discriminate;
+    repeat match goal with
+           | H : (_ <? _) = true |- _ => apply N.ltb_lt in H
+           | H : (_ <? _) = false |- _ => apply N.ltb_ge in H
+           end; try lia.
+  - replace (b2n x <? b2n z) with true by (symmetry; apply N.ltb_lt; lia). reflexivity.
+  - replace (b2n x <? b2n z) with true by (symmetry; apply N.ltb_lt; lia). reflexivity.
+  - replace (b2n x <? b2n z) with true by (symmetry; apply N.ltb_lt; lia). reflexivity.
+  - replace (b2n x <? b2n z) with false by (symmetry; apply N.ltb_ge; lia).
+    replace (b2n z <? b2n x) with false by (symmetry; apply N.ltb_ge; lia).
+    eapply IH; eassumption.
+Qed.
+
+Definition key_le (e1 e2 : bytes * list bytes) : Prop := bytes_leb (fst e1) (fst e2) = true.
+
+Lemma insert_entry_sorted e l : StronglySorted key_le l -> StronglySorted key_le (insert_entry e l).
+Proof.
+  induction l as [|h t IH]; intros Hs; cbn [insert_entry].
+  - constructor; constructor.
+  - inversion Hs as [|? ? Hst Hall]; subst. destruct (bytes_leb (fst e) (fst h)) eqn:E.
+    + constructor; [exact Hs|]. constructor; [exact E|].
+      eapply Forall_impl; [|exact Hall]. intros x Hx. unfold key_le in *. eapply bytes_leb_trans; eassumption.
+    + constructor; [apply IH; exact Hst|].
+      assert (Hhe : key_le h e).
+      { unfold key_le. destruct (bytes_leb_total (fst e) (fst h)); congruence. }
+      eapply Permutation_Forall; [apply Permutation_sym, insert_entry_perm|].
+      constructor; assumption.
+Qed.
+
+Lemma sort_values_sorted q : StronglySorted key_le (sort_values q).
+Proof.
+  induction q as [|e r IH]; cbn [sort_values fold_right]; [constructor|].
+  apply insert_entry_sorted. exact IH.
+Qed.
+
+Lemma sorted_perm_unique l : forall l',
+  StronglySorted key_le l -> StronglySorted key_le l' -> Permutation l l' ->
+  NoDup (map fst l) -> l = l'.
+Proof.
+  induction l as [|a t IH]; intros l' Hs Hs' Hp Hnd.
+  - apply Permutation_nil in Hp. congruence.
+  - destruct l' as [|a' t']; [apply Permutation_sym, Permutation_nil in Hp; discriminate|].
+    inversion Hs as [|? ? Hst Hall]; subst. inversion Hs' as [|? ? Hst' Hall']; subst.
+    assert (Ha : a = a').
+    { assert (Hin' : In a' (a :: t)) by (eapply Permutation_in; [apply Permutation_sym; exact Hp | left; reflexivity]).
+      assert (Hin : In a (a' :: t')) by (eapply Permutation_in; [exact Hp | left; reflexivity]).
+      destruct Hin' as [E|Hin']; [exact E|]. destruct Hin as [E|Hin]; [congruence|].
+      rewrite Forall_forall in Hall, Hall'.
+      assert (Hk : fst a = fst a') by (apply bytes_leb_antisym; [apply Hall; exact Hin' | apply Hall'; exact Hin]).
+      cbn [map] in Hnd. inversion Hnd as [|? ? Hnotin _]; subst. exfalso. apply Hnotin.
+      rewrite Hk. apply in_map. exact Hin'. }
+    subst a'. f_equal. apply IH; try assumption.
+    + eapply Permutation_cons_inv. exact Hp.
+    + cbn [map] in Hnd. inversion Hnd; assumption.
+Qed.
+
+Lemma values_encode_order_independent q q' :
+  Permutation q q' -> NoDup (map fst q) -> values_encode q = values_encode q'.
+Proof.
+  intros Hp Hnd. unfold values_encode. f_equal. f_equal. f_equal.
+  apply sorted_perm_unique; try apply sort_values_sorted.
+  - eapply Permutation_trans; [apply sort_values_perm|].
+    eapply Permutation_trans; [exact Hp | apply Permutation_sym, sort_values_perm].
+  - eapply Permutation_NoDup; [apply Permutation_map, Permutation_sym, sort_values_perm | exact Hnd].
+Qed.
